@@ -601,7 +601,7 @@ pub fn run(ctx: &Ctx) {
     }
 
     // --- scoped map, long random histories with rebuilds inside
-    let n = tier.pick(20_000u64, 1_000_000u64);
+    let n = tier.pick(150_000u64, 1_000_000u64);
     let keys: Vec<usize> = (0..8).collect();
     let alphabet = small_alphabet(0, 1);
     run_generated(ctx, "map_hash_random", n, || map_strategy(8, 200), |ops: &Vec<MOp>, case| {
@@ -629,7 +629,7 @@ pub fn run(ctx: &Ctx) {
     }
 
     // --- interner
-    let n = tier.pick(30_000u64, 1_000_000u64);
+    let n = tier.pick(150_000u64, 1_000_000u64);
     run_generated(ctx, "interner_constant_hash", n, interner_strategy, |ops: &Vec<IOp>, case| {
         case.class_if(ops.iter().any(|o| matches!(o, IOp::Serde)), "has_serde");
         match interner_oracle::<ConstantBuild>(ops) {
@@ -663,7 +663,7 @@ pub fn run(ctx: &Ctx) {
     });
 
     // --- tags (single "worker": the oracle spawns its own threads)
-    let rounds = tier.pick(200u64, 20_000u64);
+    let rounds = tier.pick(1_500u64, 20_000u64);
     if let Mode::Replay { sub, case } = &ctx.mode {
         if sub == "tags" {
             let c: TagCase = serde_json::from_value(case.clone()).unwrap();
